@@ -547,6 +547,10 @@ def run(ctx):
     from ..rules import pageread
     nle = pageread.check_level_extents(ctx)
     ctx.floor("C04 level-extent scenarios", nle, 100)
+    ctx.clause("C04.13 the column reader is never asked for more elements than the buffers handed to it were allocated for")
+    from ..rules import reqalloc
+    nrq = reqalloc.check(ctx, P.funcs_under("src/reader/"))
+    ctx.floor("C04 read requests into buffers allocated on the spot", nrq, 2)
     ctx.clause("C04.11 after a page is loaded the recorded decode capacity is backed by all three decode buffers")
     _capacity_backed(ctx)
 
